@@ -43,5 +43,14 @@ TEXT = {
                 "(CG/GMRES inverses, Krylov matrix functions) are excluded from the creation-tap densification",
         "technique": "runtime monitoring: invariant at a hook (operator-creation tap) + numeric truth oracle on annotations with sub-expression blame",
     },
+    "C06": {
+        "level": "Held on the executions observed: generated well-conditioned invertible operator trees x algorithm x tolerance x "
+                 "right-hand-side shape, every result compared with the dense reference under the error bound of the path that "
+                 "actually ran (direct: c*eps*cond; CG: requested tolerance through its stopping rule; GMRES to full dimension), "
+                 "including inv(A).to_dense(), and on direct paths inv(A).T/.H and b@inv(A); both sides of the 10^6 Auto switch.",
+        "note": _NOTE + "; condition numbers are bounded by construction and re-measured on the reference (cases above 300 are "
+                "skipped and counted); single-precision GMRES is run with exactly n iterations",
+        "technique": "runtime monitoring: differential oracle (dense solve of the reference matrix) with path-dependent error bounds and sub-expression blame",
+    },
 }
 NOT_APPLICABLE = {}
